@@ -454,6 +454,7 @@ class Interp:
         self.final_states = []  # states at `return`
         self.backedge_states = {}  # head -> list of states arriving over a back edge
         self.inl_back = []  # back-edge states of loops inside inlined callees (events include the caller's prefix)
+        self.inl_back_groups = []  # the same, grouped: [(unique loop id of that inlined instance, [states])]
         self.array_len = {}  # place of a fixed-size array that was unsized -> its length
         self.discr_names = {}  # discriminant term -> {value: variant name}
         self.loop_entry = {}  # head -> list of environments on entry from outside (before havoc)
@@ -1107,7 +1108,10 @@ class Interp:
             if pure:
                 res = self.pure_term(st, key, args)
             else:
-                res = ("call", key, args, uid)
+                # the result of an impure call is identified by its uid; its argument list is kept for slicing: shared
+                # references to caller locals are shown as references to the values they see at the call
+                targs = tuple(self._ref_values(st, a) if (argtys0[i] if i < len(argtys0) else "").startswith("&") and not (argtys0[i] if i < len(argtys0) else "").startswith("&mut") else a for i, a in enumerate(args))
+                res = ("call", key, targs, uid)
         ev = Event("call", bb, callee=key, fn=fn, args=args, res=res, state=(st.facts, mem_before, st.path), extra={"pure": pure, "handled": handled, "dest": t["dest"], "name": name, "trait": trait, "gpath": gpath, "argvals": argvals, "argtys": argtys0, "in": self.body.path if self.parent is not None else None, "uid": uid})
         st.add_event(ev)
         tdef = (fn.get("resolved") or fn).get("def") if "indirect" not in fn else None
@@ -1185,9 +1189,11 @@ class Interp:
             outs.append((ns, fs.env.get(0, UNIT)))
         for ds in sub.diverged:
             self.diverged.append(ds)
-        for l in sub.backedge_states.values():
+        for hd_, l in sub.backedge_states.items():
             self.inl_back.extend(l)
+            self.inl_back_groups.append((sub.uid(hd_), list(l)))
         self.inl_back.extend(sub.inl_back)
+        self.inl_back_groups.extend(sub.inl_back_groups)
         return outs
 
     def _finish_comb(self, t, bb, outs):
@@ -1237,9 +1243,11 @@ class Interp:
             outs.append(ns)
         for ds in sub.diverged:
             self.diverged.append(ds)
-        for l in sub.backedge_states.values():
+        for hd_, l in sub.backedge_states.items():
             self.inl_back.extend(l)
+            self.inl_back_groups.append((sub.uid(hd_), list(l)))
         self.inl_back.extend(sub.inl_back)
+        self.inl_back_groups.extend(sub.inl_back_groups)
         self.inlined_subs = getattr(self, "inlined_subs", [])
         self.inlined_subs.append(sub)
         return outs
@@ -1825,6 +1833,22 @@ def comb_bool_then_some(I, st, t, bb, fn, args, key, argtys):
     return I._finish_comb(t, bb, outs)
 
 
+def _stateless_closure_at_entry(I, v):
+    cur = I
+    while cur is not None:
+        for hd, ens in cur.loop_entry.items():
+            for l in ([v[2]] if len(v) > 2 else []):
+                if v[0] == "phi" and cur.uid(hd) != v[1]:
+                    continue
+                vals = {repr(en.get(l)) for en in ens}
+                if len(vals) == 1:
+                    e0 = ens[0].get(l)
+                    if isinstance(e0, tuple) and e0 and e0[0] == "agg" and isinstance(e0[1], tuple) and e0[1] and e0[1][0] == "closure" and not e0[2]:
+                        return e0
+        cur = None if v[0] == "phi" else cur.parent
+    return v
+
+
 def comb_fn_call(I, st, t, bb, fn, args, key, argtys):
     """`f(x)` where f is a closure value known in this state (a closure handed to an inlined helper):
     the closure's body is run on the arguments"""
@@ -1834,6 +1858,10 @@ def comb_fn_call(I, st, t, bb, fn, args, key, argtys):
     if isinstance(f, tuple) and f and f[0] == "ref":
         pl = f[1]
         f = pl[1] if pl[0] == "constval" else I.read_pl(st, pl)
+    if isinstance(f, tuple) and f and f[0] in ("phi", "out"):
+        # an FnMut closure called through `&mut f` inside a loop is loop-carried state; a closure without captures
+        # has no state to carry: it is the value it entered the loop with
+        f = _stateless_closure_at_entry(I, f)
     tup = args[1]
     if not (isinstance(tup, tuple) and tup and tup[0] == "agg" and tup[1] == "tuple"):
         return None
